@@ -9,6 +9,17 @@ import (
 )
 
 func (vc *VC) bindResult(n *Node, x ssa.Value, sig *types.Signature, vals []Val) {
+	// remember the results of the (latest) call of each statically known callee: callres("F", k) in contracts
+	if call, ok := x.(*ssa.Call); ok {
+		if sc := call.Call.StaticCallee(); sc != nil && call.Parent() == vc.fn {
+			if vc.callRes == nil {
+				vc.callRes = map[string][]Val{}
+				vc.callCount = map[string]int{}
+			}
+			vc.callRes[contractName(sc)] = vals
+			vc.callCount[contractName(sc)]++
+		}
+	}
 	switch len(vals) {
 	case 0:
 		n.env[x] = Val{Typ: x.Type()}
